@@ -86,6 +86,32 @@ theorem C14_cutoff_le (c : Rat) (sig : List Rat) : cutoffRank c sig ≤ sig.leng
   | zero => omega
   | succ k => have := (hspec.1 k hr).2.1; omega
 
+/-- equivalently: the retained rank is the number of singular values exceeding the cutoff -/
+theorem C14_cutoff_count (c : Rat) (sig : List Rat) (hs : NonIncreasing sig) :
+    cutoffRank c sig = (sig.filter (fun s => decide (c < s))).length := by
+  have hle := C14_cutoff_le c sig
+  obtain ⟨hkeep, hdrop⟩ := C14_cutoff c sig hs
+  have hsplit : sig = sig.take (cutoffRank c sig) ++ sig.drop (cutoffRank c sig) := (List.take_append_drop _ _).symm
+  have h1 : (sig.take (cutoffRank c sig)).filter (fun s => decide (c < s)) = sig.take (cutoffRank c sig) := by
+    apply List.filter_eq_self.mpr
+    intro s hs'
+    obtain ⟨i, hi, rfl⟩ := List.getElem_of_mem hs'
+    simp only [List.length_take] at hi
+    have := hkeep i (by omega)
+    rw [List.getD_eq_getElem?_getD, List.getElem?_eq_getElem (by omega)] at this
+    simpa [List.getElem_take] using this
+  have h2 : (sig.drop (cutoffRank c sig)).filter (fun s => decide (c < s)) = [] := by
+    apply List.filter_eq_nil_iff.mpr
+    intro s hs'
+    obtain ⟨i, hi, rfl⟩ := List.getElem_of_mem hs'
+    simp only [List.length_drop] at hi
+    have := hdrop (cutoffRank c sig + i) (by omega) (by omega)
+    rw [List.getD_eq_getElem?_getD, List.getElem?_eq_getElem (by omega)] at this
+    simp only [List.getElem_drop, decide_eq_true_eq, not_lt]
+    simpa using this
+  conv => rhs; rw [hsplit, List.filter_append, h1, h2, List.append_nil, List.length_take]
+  omega
+
 /-- the three factors are cut at the same index, and the kept singular values are the leading ones:
 still sorted, and `take` commutes with everything -/
 theorem C14_slices_consistent (r : Nat) (sig : List Rat) (hs : NonIncreasing sig) :
